@@ -349,3 +349,91 @@ Proof.
     + rewrite H. cbn [NativeFacts.lift fst snd map]. split; [constructor|reflexivity].
 Qed.
 End FactsRows.
+
+(* ------------------------------------------------------------------ native_equals_compiled_facts, rows with variables *)
+
+(* the generator function compiled from name(row_1). ... name(row_n). and the Python predicate over the same rows, called
+   from related states with related arguments (in particular: from the same state with the same arguments), deliver the
+   same number of answers, in the same order, ending the same way, the k-th answers related by an injective renaming of
+   the cells created by the call *)
+Theorem native_equals_compiled_facts_rel call name rows vals cnt code cnt' p sA sR argsA argsR :
+  compile_clauses (map (fact_clause name) rows) cnt = Some (code, cnt') ->
+  Forall (fun row => noalias row /\ length row = length argsA) rows ->
+  rel_st p sA sR -> Forall2 (rel_val p sA sR) argsA argsR ->
+  res_rel p sA sR (drop (native_rows (map row_of_src rows) vals argsA sA))
+    (let '(ys, k) := run_function (iter call) assign code (bind_args 0 argsR, sR) in
+     (map snd ys, match k with CErr => true | _ => false end)).
+Proof.
+  intros HC F R E. rewrite drop_native_rows. unfold run_function.
+  assert (G : Forall good_clause (map (fact_clause name) rows)).
+  { apply Forall_forall. intros c Hc. apply in_map_iff in Hc as [row [<- _]]. apply fact_good. }
+  destruct (clauses_ok call (map (fact_clause name) rows) cnt code cnt' (bind_args 0 argsR, sR) flags0 HC G eq_refl) as [f' [EQ _]].
+  rewrite EQ.
+  destruct (facts_rows_rel call name rows p sA sR argsA argsR (bind_args 0 argsR) sR R E F eq_refl (le_n _) (fun j => eq_refl))
+    as [Q1 Q2].
+  destruct (clausesA call (map (fact_clause name) rows) (bind_args 0 argsR, sR)) as [ys g]. cbn [fst snd] in *.
+  unfold res_rel. destruct g; cbn [fst snd]; split; assumption.
+Qed.
+
+Lemma res_rel_same_answer s rA rR : res_rel id_ren s s rA rR ->
+  Forall2 (same_answer s) (fst rA) (fst rR) /\ snd rA = snd rR.
+Proof.
+  intros [H1 H2]. split; [|exact H2].
+  induction H1 as [|xA xR lA lR [p' [R' [A' [GA [GR F']]]]] H IH]; constructor; [|exact IH].
+  exists p'. split; [apply (r_inj R')|]. split; [intros a La; symmetry; apply (A' a La)|].
+  intros q Lq. assert (Lq': q < nxt xA) by (destruct GA as [GA _]; lia).
+  pose proof (r_den R' q Lq') as D. rewrite <- (A' q Lq) in D. exact D.
+Qed.
+
+Lemma rel_vals_id s args : wf (sto s) -> inv s -> Forall (bounded (nxt s)) args -> Forall2 (rel_val id_ren s s) args args.
+Proof.
+  intros W I B. induction B as [|a l Ba Bl IH]; constructor; [|exact IH].
+  split; [exact Ba|]. split; [exact Ba|]. rewrite ren_id. reflexivity.
+Qed.
+
+Theorem native_equals_compiled_facts_renaming call name rows vals cnt code cnt' args s :
+  compile_clauses (map (fact_clause name) rows) cnt = Some (code, cnt') ->
+  Forall (fun row => noalias row /\ length row = length args) rows ->
+  wf (sto s) -> inv s -> Forall (bounded (nxt s)) args ->
+  let rN := drop (native_rows (map row_of_src rows) vals args s) in
+  let rC := (let '(ys, k) := run_function (iter call) assign code (bind_args 0 args, s) in
+             (map snd ys, match k with CErr => true | _ => false end)) in
+  Forall2 (same_answer s) (fst rN) (fst rC) /\ snd rN = snd rC.
+Proof.
+  intros HC F W I B. cbv zeta. apply res_rel_same_answer.
+  apply (native_equals_compiled_facts_rel call name rows vals cnt code cnt' id_ren s s args args HC F (rel_st_id s W I)
+           (rel_vals_id s args W I B)).
+Qed.
+
+(* ground rows: the old statement is the special case *)
+Lemma row_of_src_ground row : ground_row row = true -> row_of_src row = row_of row.
+Proof.
+  intros G. unfold row_of_src, row_of, row_vars. rewrite (ground_row_vars row G). cbn. f_equal.
+Qed.
+
+(* ------------------------------------------------------------------ the aliased row p(X).: refuted for same_answer *)
+
+Definition cx_rows : list (list sterm) := [[SVar (s_ "X")]].
+Definition cx_code : list stmt :=
+  match compile_clauses (map (fact_clause (s_ "p")) cx_rows) 0 with Some (c, _) => c | None => [] end.
+Definition cx_s : st := {| sto := []; nxt := 1 |}.
+Definition cx_call : str -> list term -> st -> list st * bool := fun _ _ _ => ([], false).
+Definition cx_native : st := {| sto := [(0, TVar 1)]; nxt := 2 |}.     (* the query's variable is bound to the row's fresh one *)
+Definition cx_compiled : st := {| sto := []; nxt := 1 |}.              (* nothing is bound *)
+
+Theorem native_equals_compiled_facts_same_answer_refuted :
+  compile_clauses (map (fact_clause (s_ "p")) cx_rows) 0 = Some (cx_code, 0) /\
+  wf (sto cx_s) /\ inv cx_s /\ Forall (bounded (nxt cx_s)) [TVar 0] /\
+  drop (native_rows (map row_of_src cx_rows) [] [TVar 0] cx_s) = ([cx_native], false) /\
+  (let '(ys, k) := run_function (iter cx_call) assign cx_code (bind_args 0 [TVar 0], cx_s) in
+   (map snd ys, match k with CErr => true | _ => false end)) = ([cx_compiled], false) /\
+  ~ same_answer cx_s cx_native cx_compiled /\ ~ same_answer cx_s cx_compiled cx_native.
+Proof.
+  split; [reflexivity|]. split; [constructor|]. split; [intros v t []|].
+  split; [constructor; [apply bounded_var; cbn; lia|constructor]|].
+  split; [vm_compute; reflexivity|]. split; [vm_compute; reflexivity|]. split.
+  - intros [p' [Inj [Id D]]]. specialize (D 0 (le_n 1)). specialize (Id 0 (le_n 1)). cbn in D, Id.
+    injection D as D. assert (1 = 0) as X by (apply Inj; cbn; lia). discriminate.
+  - intros [p' [Inj [Id D]]]. specialize (D 0 (le_n 1)). specialize (Id 0 (le_n 1)). cbn in D, Id.
+    injection D as D. lia.
+Qed.
